@@ -12,6 +12,8 @@ import RedisVerif.Model.RedisX
     DS ZNEW                         → "ok"                      fresh RedisSortedSet
     DS ZADD <member> <score>        → "1" | "0" | "crash"       add(member, score)
     DS ZREM <member>                → "1" | "0" | "crash"       remove(member)
+    DS ZADDF <nx xx gt lt ch> <n> {<member> <score>}  → ":<reply>"   the loop of execute_zadd on the structure (set held by a real CommandExecutor)
+    DS ZREMF <n> {<member>}         → ":<reply>"             the loop of execute_zrem
     DS ZSTRUCT                      → the whole structure (see `showZS`)
     DS ZITER                        → "*n {<member> <score>}"   iter()
     DS ZSCORE <member>              → score | "_"
@@ -93,6 +95,19 @@ def dsLine (st : DState) : P (DState × String) := do
     match SkipList.remove st.zs m with
     | none => pure (st, "crash")
     | some (z, b) => pure ({ st with zs := z }, boolTok b)
+  | "ZADDF" => do
+    -- the loop of `execute_zadd` (flags + pairs) on the structure; answer = the command's reply
+    let f ← zflags; let n ← nat
+    let ps ← repeatP n (do let m ← bytesTok; let sc ← score; pure (m, sc))
+    match SkipList.zaddLoop randomLevel f st.zs ps with
+    | none => pure (st, "crash")
+    | some (z, a, c) => pure ({ st with zs := z }, s!":{if f.ch then c else a}")
+  | "ZREMF" => do
+    let n ← nat
+    let ms ← repeatP n bytesTok
+    match SkipList.zremLoop st.zs ms with
+    | none => pure (st, "crash")
+    | some (z, k) => pure ({ st with zs := z }, s!":{k}")
   | "ZSTRUCT" => pure (st, showZS st.zs)
   | "ZITER" => pure (st, showPairs (iter st.zs.sl))
   | "ZSCORE" => do
